@@ -32,6 +32,7 @@ fn main() {
         "ffi" => ffi::parent(inp, outp),
         "ffi_child" => ffi::child(inp, outp, args.get(4).and_then(|x| x.parse().ok()).unwrap_or(0)),
         "c13" => util::run_cases(inp, outp, c13::run),
+        "units" => util::run_cases(inp, outp, c13::run_units),
         "radix" => util::run_cases(inp, outp, radix::run),
         "radix_prefix" => util::run_cases(inp, outp, radix::run_prefix),
         "radix_rx" => util::run_cases(inp, outp, radix::run_rx),
